@@ -16,8 +16,10 @@ from __future__ import annotations
 import ast
 import copy
 import itertools
+import re
 
 _counter = itertools.count(1)
+_SYNTHETIC = re.compile(r"_(inl|kl|cmp|c)\d+_")
 
 
 def _lower_ifexp_stmt(st):
@@ -143,6 +145,56 @@ def _lower_idempotent_set(st):
     return out
 
 
+def _leading_walrus(e):
+    """The NamedExpr that is evaluated before everything else in `e` (or None), with a setter
+    that puts a replacement in its place."""
+    parent, field, idx = None, None, None
+    cur = e
+    while True:
+        if isinstance(cur, ast.NamedExpr):
+            return cur, parent, field, idx
+        if isinstance(cur, ast.UnaryOp):
+            parent, field, idx, cur = cur, "operand", None, cur.operand
+        elif isinstance(cur, ast.Compare):
+            parent, field, idx, cur = cur, "left", None, cur.left
+        elif isinstance(cur, ast.BoolOp):
+            parent, field, idx, cur = cur, "values", 0, cur.values[0]
+        elif isinstance(cur, ast.Await):
+            parent, field, idx, cur = cur, "value", None, cur.value
+        elif isinstance(cur, ast.Call) and isinstance(cur.func, ast.Name) and cur.args and not isinstance(cur.args[0], ast.Starred):
+            parent, field, idx, cur = cur, "args", 0, cur.args[0]
+        elif isinstance(cur, ast.Attribute):
+            parent, field, idx, cur = cur, "value", None, cur.value
+        else:
+            return None, None, None, None
+
+
+def _hoist_walrus_stmt(st):
+    """`if f(x := E): ...`  ->  `x = E` / `if f(x): ...` when the binding is the first thing the
+    statement evaluates (If tests, not loops: those re-evaluate)."""
+    if isinstance(st, ast.If):
+        holder, attr = st, "test"
+    elif isinstance(st, (ast.Expr, ast.Return, ast.Assign)) and getattr(st, "value", None) is not None:
+        holder, attr = st, "value"
+    else:
+        return None
+    e = getattr(holder, attr)
+    if isinstance(e, ast.NamedExpr) and not isinstance(st, ast.If):
+        return None
+    ne, parent, field, idx = _leading_walrus(e)
+    if ne is None or not isinstance(ne.target, ast.Name):
+        return None
+    use = ast.copy_location(ast.Name(id=ne.target.id, ctx=ast.Load()), ne)
+    if parent is None:
+        setattr(holder, attr, use)
+    elif idx is None:
+        setattr(parent, field, use)
+    else:
+        getattr(parent, field)[idx] = use
+    bind = ast.copy_location(ast.Assign(targets=[ast.Name(id=ne.target.id, ctx=ast.Store())], value=ne.value, lineno=st.lineno), st)
+    return [bind, st]
+
+
 def _rewrite_blocks(node) -> bool:
     changed = False
     for fld in ("body", "orelse", "finalbody"):
@@ -151,7 +203,7 @@ def _rewrite_blocks(node) -> bool:
             continue
         new_block = []
         for st in block:
-            rep = _lower_ifexp_stmt(st) or _lower_dictcomp_stmt(st) or _lower_idempotent_set(st)
+            rep = _lower_ifexp_stmt(st) or _lower_dictcomp_stmt(st) or _lower_idempotent_set(st) or _hoist_walrus_stmt(st)
             if rep is not None:
                 new_block.extend(rep)
                 changed = True
@@ -170,6 +222,489 @@ def _rewrite_blocks(node) -> bool:
             if _rewrite_blocks(c):
                 changed = True
     return changed
+
+
+# ---------------------------------------------------------------------------------------------
+# F. branch threading.  A helper that reports its outcome through several variables
+#    (`container, factory = self._lookup(...)`, `found = True`) leaves, once inlined, an
+#    if-chain whose branches set those variables, followed by tests of the same variables:
+#        if A: c = x; f = None          the join point only exists to be split again.  The tail
+#        elif B: c = None; f = y        is moved into every branch that reaches it and the tests
+#        else: c = None; f = None       whose outcome is known there are folded, which gives the
+#        if c is not None: return ..    shape the code had before the helper was extracted.
+#        if f is None: ...              Accepted only if nothing but miss exits (return / raise)
+#        REST                           ends up duplicated.
+
+
+_TERMINATORS = (ast.Return, ast.Raise, ast.Continue, ast.Break)
+
+
+def _terminates(stmts) -> bool:
+    if not stmts:
+        return False
+    last = stmts[-1]
+    if isinstance(last, _TERMINATORS):
+        return True
+    if isinstance(last, ast.If):
+        return _terminates(last.body) and _terminates(last.orelse)
+    return False
+
+
+def _stored_names(st) -> set:
+    out = set()
+    for n in ast.walk(st):
+        if isinstance(n, ast.Name) and isinstance(n.ctx, (ast.Store, ast.Del)):
+            out.add(n.id)
+        elif isinstance(n, ast.ExceptHandler) and n.name:
+            out.add(n.name)
+        elif isinstance(n, (ast.FunctionDef, ast.AsyncFunctionDef, ast.ClassDef)):
+            out.add(n.name)
+        elif isinstance(n, (ast.Global, ast.Nonlocal)):
+            out |= set(n.names)
+    return out
+
+
+def _cond_facts(test, truth: bool, env: dict) -> None:
+    """Facts about plain local names implied by `test` evaluating to `truth`."""
+    if isinstance(test, ast.UnaryOp) and isinstance(test.op, ast.Not):
+        _cond_facts(test.operand, not truth, env)
+        return
+    if isinstance(test, ast.BoolOp):
+        if isinstance(test.op, ast.And) and truth or isinstance(test.op, ast.Or) and not truth:
+            for v in test.values:
+                _cond_facts(v, truth, env)
+        return
+    if isinstance(test, ast.Compare) and len(test.ops) == 1 and isinstance(test.ops[0], (ast.Is, ast.IsNot)):
+        left, right = test.left, test.comparators[0]
+        if isinstance(left, ast.NamedExpr):
+            left = left.target
+        if isinstance(left, ast.Name) and isinstance(right, ast.Constant) and right.value is None:
+            is_none = truth if isinstance(test.ops[0], ast.Is) else not truth
+            env[left.id] = "none" if is_none else "notnone"
+        return
+    if isinstance(test, ast.NamedExpr):
+        test = test.target
+    if isinstance(test, ast.Name) and truth:
+        if env.get(test.id) is None:
+            env[test.id] = "notnone"
+
+
+def _assign_fact(st, env: dict) -> None:
+    """Update `env` for one simple statement."""
+    if isinstance(st, (ast.Assign, ast.AnnAssign)) and (isinstance(st, ast.AnnAssign) or len(st.targets) == 1):
+        tgt = st.target if isinstance(st, ast.AnnAssign) else st.targets[0]
+        val = st.value
+        if isinstance(tgt, ast.Name) and val is not None:
+            for n in ast.walk(val):
+                if isinstance(n, ast.NamedExpr):
+                    env.pop(n.target.id, None)
+            if isinstance(val, ast.Constant):
+                env[tgt.id] = "none" if val.value is None else ("true" if val.value is True else "false" if val.value is False else "notnone")
+            elif isinstance(val, ast.Name) and env.get(val.id) is not None:
+                env[tgt.id] = env[val.id]
+            elif isinstance(val, (ast.Tuple, ast.List, ast.Dict, ast.Set, ast.JoinedStr, ast.Lambda)):
+                env[tgt.id] = "notnone"
+            else:
+                env.pop(tgt.id, None)
+            return
+    for v in _stored_names(st):
+        env.pop(v, None)
+
+
+def _decide(test, env: dict):
+    if isinstance(test, ast.UnaryOp) and isinstance(test.op, ast.Not):
+        r = _decide(test.operand, env)
+        return None if r is None else not r
+    if isinstance(test, ast.BoolOp):
+        rs = [_decide(v, env) for v in test.values]
+        if isinstance(test.op, ast.And):
+            for r in rs:
+                if r is False:
+                    return False
+                if r is None:
+                    return None
+            return True
+        for r in rs:
+            if r is True:
+                return True
+            if r is None:
+                return None
+        return False
+    if isinstance(test, ast.Compare) and len(test.ops) == 1 and isinstance(test.ops[0], (ast.Is, ast.IsNot)):
+        left, right = test.left, test.comparators[0]
+        if isinstance(left, ast.Name) and isinstance(right, ast.Constant) and right.value is None and env.get(left.id) is not None:
+            is_none = env[left.id] == "none"
+            return is_none if isinstance(test.ops[0], ast.Is) else not is_none
+        return None
+    if isinstance(test, ast.Name):
+        k = env.get(test.id)
+        if k in ("none", "false"):
+            return False
+        if k == "true":
+            return True
+    return None
+
+
+def _fold_tail(tail: list, env: dict, stats: dict) -> list:
+    out = []
+    env = dict(env)
+    for i, st in enumerate(tail):
+        if isinstance(st, ast.If):
+            r = _decide(st.test, env)
+            if r is not None and not any(isinstance(n, (ast.NamedExpr, ast.Call, ast.Await)) for n in ast.walk(st.test)):
+                stats["folds"] += 1
+                chosen = st.body if r else st.orelse
+                out.extend(_fold_tail(chosen + tail[i + 1 :], env, stats))
+                return out
+            benv, oenv = dict(env), dict(env)
+            _cond_facts(st.test, True, benv)
+            _cond_facts(st.test, False, oenv)
+            st.body = _fold_tail(st.body, benv, stats) or [ast.copy_location(ast.Pass(), st)]
+            st.orelse = _fold_tail(st.orelse, oenv, stats)
+            out.append(st)
+            # what holds after the statement: only what both falling-through branches agree on
+            after = []
+            if not _terminates(st.body):
+                e_ = dict(benv)
+                for x in st.body:
+                    _assign_fact(x, e_) if not isinstance(x, (ast.If, ast.For, ast.While, ast.Try, ast.With, ast.AsyncFor, ast.AsyncWith)) else [e_.pop(v, None) for v in _stored_names(x)]
+                after.append(e_)
+            if not _terminates(st.orelse):
+                e_ = dict(oenv)
+                for x in st.orelse:
+                    _assign_fact(x, e_) if not isinstance(x, (ast.If, ast.For, ast.While, ast.Try, ast.With, ast.AsyncFor, ast.AsyncWith)) else [e_.pop(v, None) for v in _stored_names(x)]
+                after.append(e_)
+            if not after:
+                return out
+            env = {k: v for k, v in after[0].items() if all(a.get(k) == v for a in after[1:])}
+            continue
+        out.append(st)
+        if isinstance(st, _TERMINATORS):
+            return out
+        if isinstance(st, (ast.For, ast.While, ast.Try, ast.With, ast.AsyncFor, ast.AsyncWith, ast.FunctionDef, ast.AsyncFunctionDef, ast.ClassDef, ast.Match)):
+            for v in _stored_names(st):
+                env.pop(v, None)
+        else:
+            _assign_fact(st, env)
+    return out
+
+
+def _duplicable(st) -> bool:
+    """Statements that may end up in several branches: miss exits."""
+    if isinstance(st, (ast.Pass, ast.Continue, ast.Break)):
+        return True
+    if isinstance(st, ast.Return):
+        return st.value is None or not any(isinstance(n, (ast.Call, ast.Await, ast.NamedExpr)) for n in ast.walk(st.value))
+    if isinstance(st, ast.Raise):
+        return not any(isinstance(n, (ast.Await, ast.NamedExpr)) for n in ast.walk(st))
+    if isinstance(st, ast.If):
+        return not any(isinstance(n, (ast.Call, ast.Await, ast.NamedExpr)) for n in ast.walk(st.test)) and all(_duplicable(x) for x in st.body + st.orelse)
+    if isinstance(st, ast.Assign):
+        return all(isinstance(t, ast.Name) for t in st.targets) and not any(isinstance(n, (ast.Call, ast.Await, ast.NamedExpr)) for n in ast.walk(st.value))
+    return False
+
+
+def _thread_block(block: list) -> bool:
+    for i, st in enumerate(block[:-1]):
+        if not isinstance(st, ast.If) or not st.orelse or not isinstance(block[i + 1], ast.If):
+            continue
+        tail = block[i + 1 :]
+        if any(isinstance(n, (ast.FunctionDef, ast.AsyncFunctionDef, ast.ClassDef)) for t in tail for n in ast.walk(t)):
+            continue
+        tested = {n.id for n in ast.walk(block[i + 1].test) if isinstance(n, ast.Name)}
+        if not tested & _stored_names(st):
+            continue
+        for k, t in enumerate(tail):
+            for n in ast.walk(t):
+                if isinstance(n, ast.stmt):
+                    n._thread_tag = id(n)  # type: ignore[attr-defined]
+        new_if = copy.deepcopy(st)
+        stats = {"folds": 0}
+        leaves = 0
+
+        def extend(stmts: list, env: dict) -> list:
+            nonlocal leaves
+            env = dict(env)
+            for x in stmts[:-1]:
+                if isinstance(x, (ast.If, ast.For, ast.While, ast.Try, ast.With, ast.AsyncFor, ast.AsyncWith, ast.FunctionDef, ast.AsyncFunctionDef, ast.ClassDef, ast.Match)):
+                    for v in _stored_names(x):
+                        env.pop(v, None)
+                else:
+                    _assign_fact(x, env)
+            if stmts and isinstance(stmts[-1], ast.If):
+                last = stmts[-1]
+                benv, oenv = dict(env), dict(env)
+                for n in ast.walk(last.test):
+                    if isinstance(n, ast.NamedExpr):
+                        benv.pop(n.target.id, None)
+                        oenv.pop(n.target.id, None)
+                _cond_facts(last.test, True, benv)
+                _cond_facts(last.test, False, oenv)
+                last.body = extend(last.body, benv)
+                last.orelse = extend(last.orelse, oenv)
+                return stmts
+            if stmts:
+                x = stmts[-1]
+                if isinstance(x, _TERMINATORS):
+                    return stmts
+                if isinstance(x, (ast.For, ast.While, ast.Try, ast.With, ast.AsyncFor, ast.AsyncWith, ast.FunctionDef, ast.AsyncFunctionDef, ast.ClassDef, ast.Match)):
+                    for v in _stored_names(x):
+                        env.pop(v, None)
+                else:
+                    _assign_fact(x, env)
+            leaves += 1
+            return stmts + _fold_tail(copy.deepcopy(tail), env, stats)
+
+        new_block = extend([new_if], {})
+        if stats["folds"] == 0 or leaves < 2:
+            continue
+        # nothing but miss exits may be duplicated
+        seen: dict = {}
+        for n in ast.walk(new_block[0]):
+            if isinstance(n, ast.stmt) and hasattr(n, "_thread_tag"):
+                seen.setdefault(n._thread_tag, []).append(n)
+        if any(len(v) > 1 and not _duplicable(v[0]) for v in seen.values()):
+            continue
+        block[i:] = new_block
+        return True
+    return False
+
+
+_COMPOUND = (ast.If, ast.For, ast.While, ast.Try, ast.With, ast.AsyncFor, ast.AsyncWith, ast.FunctionDef, ast.AsyncFunctionDef, ast.ClassDef, ast.Match)
+
+
+def _scan_facts(stmts, env: dict) -> dict:
+    env = dict(env)
+    for x in stmts:
+        if isinstance(x, _COMPOUND):
+            for v in _stored_names(x):
+                env.pop(v, None)
+        else:
+            _assign_fact(x, env)
+    return env
+
+
+def _thread_loop_exits(block: list) -> bool:
+    """`for ..: if c: v = x; break` / `else: v = None` followed by `if v is not None: S`: the test
+    after the loop only asks again which exit was taken.  When its outcome is known at every
+    exit of the loop, the chosen branch moves to the exit and the test goes away."""
+    for i, loop in enumerate(block[:-1]):
+        nxt = block[i + 1]
+        if not isinstance(loop, (ast.For, ast.AsyncFor, ast.While)) or not isinstance(nxt, ast.If):
+            continue
+        if any(isinstance(n, (ast.NamedExpr, ast.Call, ast.Await)) for n in ast.walk(nxt.test)):
+            continue
+        tested = {n.id for n in ast.walk(nxt.test) if isinstance(n, ast.Name)}
+        if not tested & _stored_names(loop):
+            continue
+        exits: list = []  # (block, index of the break, env)
+        ok = True
+
+        def walk(stmts: list, env: dict) -> None:
+            nonlocal ok
+            env = dict(env)
+            for k, x in enumerate(stmts):
+                if isinstance(x, ast.Break):
+                    exits.append((stmts, k, dict(env)))
+                    return
+                if isinstance(x, ast.If):
+                    benv, oenv = dict(env), dict(env)
+                    for n in ast.walk(x.test):
+                        if isinstance(n, ast.NamedExpr):
+                            benv.pop(n.target.id, None)
+                            oenv.pop(n.target.id, None)
+                    _cond_facts(x.test, True, benv)
+                    _cond_facts(x.test, False, oenv)
+                    walk(x.body, benv)
+                    walk(x.orelse, oenv)
+                    for v in _stored_names(x):
+                        env.pop(v, None)
+                elif isinstance(x, (ast.With, ast.AsyncWith)):
+                    for v in _stored_names(x):
+                        env.pop(v, None)
+                    walk(x.body, env)
+                elif isinstance(x, (ast.Try, ast.Match)):
+                    if any(isinstance(n, ast.Break) for n in ast.walk(x)):
+                        ok = False
+                    for v in _stored_names(x):
+                        env.pop(v, None)
+                elif isinstance(x, _COMPOUND):
+                    for v in _stored_names(x):
+                        env.pop(v, None)
+                else:
+                    _assign_fact(x, env)
+
+        walk(loop.body, {})
+        if not ok or not exits:
+            continue
+        # the exit without break
+        if loop.orelse:
+            normal_env = None if _terminates(loop.orelse) else _scan_facts(loop.orelse, {})
+        else:
+            normal_env = _scan_facts(block[:i], {})
+            # a variable survives the loop unchanged if every assignment to it is followed by a
+            # break in the same block
+            for v in _stored_names(loop):
+                if v not in normal_env:
+                    continue
+                safe = True
+                for owner in ast.walk(loop):
+                    for fld in ("body", "orelse", "finalbody"):
+                        blk = getattr(owner, fld, None)
+                        if not isinstance(blk, list):
+                            continue
+                        for k, x in enumerate(blk):
+                            if isinstance(x, ast.stmt) and not isinstance(x, _COMPOUND) and v in _stored_names(x):
+                                if not any(isinstance(y, ast.Break) for y in blk[k + 1 :]) or any(isinstance(y, _COMPOUND) for y in blk[k + 1 :]):
+                                    safe = False
+                            elif isinstance(x, (ast.For, ast.AsyncFor, ast.With, ast.AsyncWith)) and owner is not loop and v in {n.id for t in ([x.target] if hasattr(x, "target") else [it.optional_vars for it in x.items if it.optional_vars is not None]) for n in ast.walk(t) if isinstance(n, ast.Name)}:
+                                safe = False
+                if isinstance(loop, (ast.For, ast.AsyncFor)) and v in {n.id for n in ast.walk(loop.target) if isinstance(n, ast.Name)}:
+                    safe = False
+                if not safe:
+                    normal_env.pop(v, None)
+        decisions = [_decide(nxt.test, env) for _b, _k, env in exits]
+        normal_decision = None if normal_env is None else _decide(nxt.test, normal_env)
+        if any(d is None for d in decisions) or (normal_env is not None and normal_decision is None):
+            continue
+        uses: dict = {True: 0, False: 0}
+        for d in decisions:
+            uses[d] += 1
+        if normal_env is not None:
+            uses[normal_decision] += 1
+        if any(uses[d] > 1 and (nxt.body if d else nxt.orelse) and not all(_duplicable(x) for x in (nxt.body if d else nxt.orelse)) for d in (True, False)):
+            continue
+        for (blk, k, _env), d in sorted(zip(exits, decisions), key=lambda p_: -p_[0][1]):
+            chosen = copy.deepcopy(nxt.body if d else nxt.orelse)
+            if _terminates(chosen):
+                blk[k:] = chosen
+            else:
+                blk[k:k] = chosen
+        if normal_env is not None:
+            chosen = copy.deepcopy(nxt.body if normal_decision else nxt.orelse)
+            if chosen:
+                loop.orelse = list(loop.orelse) + chosen
+        del block[i + 1]
+        return True
+    return False
+
+
+
+def _thread_branches(node) -> bool:
+    changed = False
+    for fld in ("body", "orelse", "finalbody"):
+        block = getattr(node, fld, None)
+        if not isinstance(block, list) or not block or not isinstance(block[0], ast.stmt):
+            continue
+        if not isinstance(node, (ast.Module, ast.ClassDef)):
+            for _ in range(4):
+                if not (_thread_block(block) or _thread_loop_exits(block)):
+                    break
+                changed = True
+        for st in block:
+            if _thread_branches(st):
+                changed = True
+    if isinstance(node, ast.Try):
+        for h in node.handlers:
+            if _thread_branches(h):
+                changed = True
+    return changed
+
+
+
+# ---------------------------------------------------------------------------------------------
+# G. materialised element lists.  `keys = [(t, name) for t in types]` followed only by
+#    `for key in keys:` loops is the same as looping over `types` and forming the element in
+#    the loop:   for t in types: ... (t, name) ...
+#    Conditions: one generator without filter, a call-free element expression, the list is
+#    bound once and used for nothing but plain `for` loops after it, nothing the element or
+#    the iterable depend on is rebound afterwards, and the iterable is a local that is used
+#    again later (so it is not a one-shot iterator).
+
+
+def _pure_element(e) -> bool:
+    return all(isinstance(n, (ast.Tuple, ast.Name, ast.Constant, ast.Attribute, ast.Subscript, ast.Load, ast.Store)) for n in ast.walk(e))
+
+
+def _dematerialise_lists(tree: ast.Module) -> bool:
+    changed = False
+    for fn in ast.walk(tree):
+        if not isinstance(fn, (ast.FunctionDef, ast.AsyncFunctionDef)):
+            continue
+        own = list(_own_walk(fn))
+        order: dict = {}
+
+        def _number(node):
+            order[id(node)] = len(order)
+            for c in ast.iter_child_nodes(node):
+                _number(c)
+
+        _number(fn)
+        pos = lambda n: order.get(id(n), -1)  # noqa: E731  (document order; line numbers of inlined code are the helper's)
+        stores: dict = {}
+        for n in own:
+            if isinstance(n, ast.Name) and isinstance(n.ctx, (ast.Store, ast.Del)):
+                stores.setdefault(n.id, []).append(n)
+        captured = {x.id for sub in own if isinstance(sub, (ast.FunctionDef, ast.AsyncFunctionDef, ast.Lambda)) for x in ast.walk(sub) if isinstance(x, ast.Name)}
+        params = {a.arg for a in fn.args.posonlyargs + fn.args.args + fn.args.kwonlyargs}
+        for st in own:
+            if not (isinstance(st, ast.Assign) and len(st.targets) == 1 and isinstance(st.targets[0], ast.Name) and isinstance(st.value, ast.ListComp)):
+                continue
+            lst = st.targets[0].id
+            comp = st.value
+            if len(comp.generators) != 1:
+                continue
+            g = comp.generators[0]
+            if g.ifs or g.is_async or not isinstance(g.target, ast.Name) or not isinstance(g.iter, ast.Name) or not _pure_element(comp.elt):
+                continue
+            if len(stores.get(lst, [])) != 1 or lst in captured or lst in params:
+                continue
+            src = g.iter.id
+            deps = {x.id for x in ast.walk(comp.elt) if isinstance(x, ast.Name)} - {g.target.id} | {src}
+            if any(pos(s_) > pos(st) for d in deps for s_ in stores.get(d, [])) or deps & captured - params:
+                continue
+            loads = [n for n in own if isinstance(n, ast.Name) and n.id == lst and isinstance(n.ctx, ast.Load)]
+            loops = [n for n in own if isinstance(n, ast.For) and isinstance(n.iter, ast.Name) and n.iter.id == lst and isinstance(n.target, ast.Name) and pos(n) > pos(st)]
+            if not loops or {id(l.iter) for l in loops} != {id(x) for x in loads}:
+                continue
+            comp_nodes = {id(x) for x in ast.walk(comp)}
+            if not any(isinstance(n, ast.Name) and n.id == src and isinstance(n.ctx, ast.Load) and id(n) not in comp_nodes and pos(n) > pos(st) for n in own):
+                continue
+            ok = True
+            for lp in loops:
+                k = lp.target.id
+                inside = {id(x) for x in ast.walk(lp)}
+                if len(stores.get(k, [])) != 1 or k in captured:
+                    ok = False
+                if any(isinstance(n, ast.Name) and n.id == k and isinstance(n.ctx, ast.Load) and id(n) not in inside for n in own):
+                    ok = False
+            if not ok:
+                continue
+            for lp in loops:
+                tv = f"_kl{next(_counter)}_{g.target.id}"
+                elt = _Rename({g.target.id: tv}).visit(copy.deepcopy(comp.elt))
+                k = lp.target.id
+
+                class S(ast.NodeTransformer):
+                    def visit_Name(self, node):
+                        if node.id == k and isinstance(node.ctx, ast.Load):
+                            return ast.copy_location(copy.deepcopy(elt), node)
+                        return node
+
+                lp.body = [S().visit(b) for b in lp.body]
+                lp.orelse = [S().visit(b) for b in lp.orelse]
+                lp.target = ast.copy_location(ast.Name(id=tv, ctx=ast.Store()), lp.target)
+                lp.iter = ast.copy_location(ast.Name(id=src, ctx=ast.Load()), lp.iter)
+            for owner in ast.walk(fn):
+                for fld in ("body", "orelse", "finalbody"):
+                    blk = getattr(owner, fld, None)
+                    if isinstance(blk, list) and st in blk:
+                        kept = [x for x in blk if x is not st]
+                        setattr(owner, fld, kept or [ast.copy_location(ast.Pass(), st)])
+            changed = True
+            break  # indices are stale: the next round picks up further lists
+    return changed
+
 
 
 def _annotate_raises(tree: ast.Module) -> None:
@@ -223,8 +758,8 @@ def _inline_local_aliases(tree: ast.Module) -> bool:
 
     A local that is bound exactly once, at the top level of the function body, to an attribute
     chain rooted at a parameter, is the same object as the chain for as long as no prefix of the
-    chain is rebound in the function; its later uses are replaced by the chain (the binding
-    itself stays)."""
+    chain is rebound in the function; its later uses are replaced by the chain; a binding
+    without remaining uses is dropped."""
     changed = False
     for fn in ast.walk(tree):
         if not isinstance(fn, (ast.FunctionDef, ast.AsyncFunctionDef)):
@@ -246,6 +781,7 @@ def _inline_local_aliases(tree: ast.Module) -> bool:
                     rebound_chains.add(c)
         captured = {x.id for sub in _own_walk(fn) if isinstance(sub, (ast.FunctionDef, ast.AsyncFunctionDef, ast.Lambda)) for x in ast.walk(sub) if isinstance(x, ast.Name)}
         aliases = {}
+        loop_targets = {n.target.id: n for n in _own_walk(fn) if isinstance(n, (ast.For, ast.AsyncFor)) and isinstance(n.target, ast.Name)}
         for st in _own_walk(fn):
             if isinstance(st, ast.Assign) and len(st.targets) == 1 and isinstance(st.targets[0], ast.Name):
                 v = st.targets[0].id
@@ -253,7 +789,16 @@ def _inline_local_aliases(tree: ast.Module) -> bool:
                 if chain is None or stores.get(v) != 1 or v in declared or v in params or v in captured:
                     continue
                 root = chain.split(".")[0]
-                if root not in params or stores.get(root):
+                if root in loop_targets and stores.get(root) == 1 and root not in params:
+                    # rooted at the variable of a `for` loop: good for the rest of the iteration,
+                    # i.e. when binding and uses all sit in that loop's body
+                    loop = loop_targets[root]
+                    if st not in loop.body:
+                        continue
+                    inside = {id(x) for b in loop.body for x in ast.walk(b)}
+                    if any(isinstance(x, ast.Name) and x.id == v and isinstance(x.ctx, ast.Load) and (id(x) not in inside or x.lineno <= st.lineno) for x in ast.walk(fn)):
+                        continue
+                elif root not in params or stores.get(root):
                     continue
                 prefixes = {".".join(chain.split(".")[: i + 1]) for i in range(1, len(chain.split(".")))}
                 if prefixes & rebound_chains:
@@ -280,6 +825,119 @@ def _inline_local_aliases(tree: ast.Module) -> bool:
         r = R()
         for i, st in enumerate(fn.body):
             fn.body[i] = r.visit(st)
+        # a binding none of whose uses is left is dropped (reading the chain has no effect)
+        left = {x.id for x in ast.walk(fn) if isinstance(x, ast.Name) and isinstance(x.ctx, ast.Load)}
+        dead = [st for v, (st, _e) in aliases.items() if v not in left]
+        if dead:
+            for owner in ast.walk(fn):
+                for fld in ("body", "orelse", "finalbody"):
+                    blk = getattr(owner, fld, None)
+                    if isinstance(blk, list) and any(d in blk for d in dead):
+                        kept = [x for x in blk if x not in dead]
+                        setattr(owner, fld, kept or [ast.copy_location(ast.Pass(), blk[0])])
+                        changed = True
+    return changed
+
+
+def _propagate_name_copies(tree: ast.Module) -> bool:
+    """`v = w` where both names are bound exactly once (w: a parameter that is never rebound or
+    a local with a single plain assignment) and the copy is not made inside a loop: v is w
+    from then on, in the function and in the closures it defines.  Uses of v become w and the
+    copy goes away.  (Produced by record scalarisation: `rec__field = arg`.)"""
+    changed = False
+    for fn in ast.walk(tree):
+        if not isinstance(fn, (ast.FunctionDef, ast.AsyncFunctionDef)):
+            continue
+        own = list(_own_walk(fn))
+        params = {a.arg for a in fn.args.posonlyargs + fn.args.args + fn.args.kwonlyargs}
+        if fn.args.vararg:
+            params.add(fn.args.vararg.arg)
+        if fn.args.kwarg:
+            params.add(fn.args.kwarg.arg)
+        stores: dict = {}
+        declared = set()
+        for n in own:
+            if isinstance(n, ast.Name) and isinstance(n.ctx, (ast.Store, ast.Del)):
+                stores[n.id] = stores.get(n.id, 0) + 1
+            elif isinstance(n, ast.ExceptHandler) and n.name:
+                stores[n.name] = stores.get(n.name, 0) + 1
+            elif isinstance(n, (ast.Global, ast.Nonlocal)):
+                declared |= set(n.names)
+            elif isinstance(n, (ast.FunctionDef, ast.AsyncFunctionDef, ast.ClassDef)):
+                stores[n.name] = stores.get(n.name, 0) + 1
+            elif isinstance(n, (ast.Import, ast.ImportFrom)):
+                for al in n.names:
+                    nm = (al.asname or al.name).split(".")[0]
+                    stores[nm] = stores.get(nm, 0) + 1
+        nested = [n for n in own if isinstance(n, (ast.FunctionDef, ast.AsyncFunctionDef, ast.Lambda))]
+        nested_bound = set()  # names a nested scope binds itself or rebinds through nonlocal
+        for sub in nested:
+            for x in ast.walk(sub):
+                if isinstance(x, ast.Name) and isinstance(x.ctx, (ast.Store, ast.Del)):
+                    nested_bound.add(x.id)
+                elif isinstance(x, ast.arg):
+                    nested_bound.add(x.arg)
+                elif isinstance(x, (ast.Global, ast.Nonlocal)):
+                    nested_bound |= set(x.names)
+                elif isinstance(x, ast.ExceptHandler) and x.name:
+                    nested_bound.add(x.name)
+                elif isinstance(x, (ast.FunctionDef, ast.AsyncFunctionDef, ast.ClassDef)) and x is not sub:
+                    nested_bound.add(x.name)
+        in_loop = set()
+        for n in own:
+            if isinstance(n, (ast.For, ast.AsyncFor, ast.While)):
+                for x in ast.walk(n):
+                    in_loop.add(id(x))
+        plain_assigned = {}
+        for n in own:
+            if isinstance(n, ast.Assign) and len(n.targets) == 1 and isinstance(n.targets[0], ast.Name):
+                plain_assigned.setdefault(n.targets[0].id, []).append(n)
+            elif isinstance(n, ast.AnnAssign) and isinstance(n.target, ast.Name) and n.value is not None:
+                plain_assigned.setdefault(n.target.id, []).append(n)
+        copies = {}
+        for st in own:
+            if not (isinstance(st, ast.Assign) and len(st.targets) == 1 and isinstance(st.targets[0], ast.Name) and isinstance(st.value, ast.Name)):
+                continue
+            v, w = st.targets[0].id, st.value.id
+            if v == w or id(st) in in_loop or v in params or v in declared or w in declared or v in nested_bound or w in nested_bound:
+                continue
+            if stores.get(v) != 1:
+                continue
+            if w in params:
+                if stores.get(w):
+                    continue
+            elif not (stores.get(w) == 1 and len(plain_assigned.get(w, [])) == 1 and id(plain_assigned[w][0]) not in in_loop):
+                continue
+            if w in copies or v in {c for c, _s in copies.values()}:
+                continue  # chains are resolved in the next round
+            copies[v] = (w, st)
+        if not copies:
+            continue
+
+        # keep the name the code uses: a synthetic temporary (from inlining) takes the name of
+        # the variable it is copied into, not the other way round
+        mapping = {}
+        for v, (w, _st) in copies.items():
+            if _SYNTHETIC.match(w) and not _SYNTHETIC.match(v) and w not in params and w not in mapping.values():
+                mapping[w] = v
+            else:
+                mapping[v] = w
+
+        class R(ast.NodeTransformer):
+            def visit_Name(self, node):
+                if node.id in mapping:
+                    return ast.copy_location(ast.Name(id=mapping[node.id], ctx=node.ctx), node)
+                return node
+
+        dead = [st for _w, st in copies.values()]
+        for owner in ast.walk(fn):
+            for fld in ("body", "orelse", "finalbody"):
+                blk = getattr(owner, fld, None)
+                if isinstance(blk, list) and any(d in blk for d in dead):
+                    kept = [x for x in blk if x not in dead]
+                    setattr(owner, fld, kept or [ast.copy_location(ast.Pass(), blk[0])])
+        fn.body = [R().visit(b) for b in fn.body]
+        changed = True
     return changed
 
 
@@ -370,12 +1028,18 @@ def normalize_tree(tree: ast.Module) -> bool:
             changed_any = True
         tree._norm_consts_done = True  # type: ignore[attr-defined]
     for _ in range(4):  # aliases of aliases
-        if not _inline_local_aliases(tree):
+        if not (_inline_local_aliases(tree) | _propagate_name_copies(tree)):
             break
         changed_any = True
     for _ in range(6):
         if not _rewrite_blocks(tree):
             break
+        changed_any = True
+    for _ in range(4):
+        if not _dematerialise_lists(tree):
+            break
+        changed_any = True
+    if _thread_branches(tree):
         changed_any = True
     if changed_any:
         ast.fix_missing_locations(tree)
